@@ -168,6 +168,21 @@ pub fn run(ctx: &Ctx, rep: &Report) -> Meta {
         })
         .collect();
     par_items(ctx, rep, "large-vectors", &big, |c| check(rep, "large-vectors", c));
+    // every vector length in a contiguous range, updates at the first, second, middle and last position
+    let sweep: Vec<Case> = (7..=ctx.tier.pick(72usize, 200usize))
+        .map(|l| Case {
+            suite: if l % 2 == 0 { SuiteId::Sha256 } else { SuiteId::Shake256 },
+            key: KeySpec { fixture: false, ikm: BSpec { len: 32, class: 0, seed: (ctx.seed as u32).wrapping_add(l as u32) }, key_info: OptBytes::None, key_dst: OptBytes::None },
+            header: [OptBytes::None, OptBytes::Bytes(BSpec { len: 16, class: 0, seed: 1 })][l % 2].clone(),
+            msgs: MsgVec { items: (0..l).map(|j| BSpec { len: 6, class: 0, seed: (l * 1000 + j) as u32 }).collect() },
+            steps: [0usize, 1, l / 2, l - 1]
+                .iter()
+                .map(|&p| Step { pos: (((p as u64) << 16) / l as u64 + 1).min(65535) as u16, val: BSpec { len: 9, class: 0, seed: (l * 77 + p) as u32 } })
+                .collect(),
+            sweep: false,
+        })
+        .collect();
+    par_items(ctx, rep, "size-sweep", &sweep, |c| check(rep, "size-sweep", c));
     Meta {
         rule: "model-based histories: suite, key, header, L = 1..6 (quick) / 1..12 (thorough) plus sweeps over L in {24, 33, 64}, initial vector, then up to 12 / 32 generated (position, value) updates, optionally preceded by a sweep over every position; \
                model = current vector and A_k = B_ref(vector_k)/(sk + e) from the reference; after every step: update Ok, verify Ok, signature octets = model, Err for the last 8 earlier different vectors; \
